@@ -123,6 +123,141 @@ func runC07(p *core.Prog, r *core.Report) {
 	c07R2(p, r)
 	c07R3(p, r, "C07.R3")
 	c07R4(p, r)
+	c07R5(p, r, "C07.R5")
+}
+
+// pathDepth counts the path elements of a path expression built with Join, + and Sprintf: one per
+// non-constant leaf, one per segment of a constant. ok=false when the expression has alternatives
+// (a phi), which cannot be counted.
+func pathDepth(v ssa.Value) (n int, ok bool) {
+	ok = true
+	var walk func(x ssa.Value, d int)
+	walk = func(x ssa.Value, d int) {
+		if x == nil || d > 30 {
+			ok = false
+			return
+		}
+		switch y := x.(type) {
+		case *ssa.Const:
+			if sv, isS := core.ConstString(y); isS {
+				for _, seg := range strings.Split(sv, "/") {
+					if seg != "" {
+						n++
+					}
+				}
+				return
+			}
+			n++
+		case *ssa.Call:
+			cal := core.Callee(y)
+			if cal != nil && (core.IsFunc(cal, "path", "Join") || core.IsFunc(cal, "path/filepath", "Join")) {
+				for _, e := range variadicElems(y.Call.Args[0]) {
+					walk(e, d+1)
+				}
+				return
+			}
+			n++
+		case *ssa.Phi:
+			ok = false
+		case *ssa.UnOp:
+			if al, isCell := y.X.(*ssa.Alloc); isCell {
+				sts := core.ReachingStores(y, al)
+				if len(sts) == 1 {
+					walk(sts[0].Val, d+1)
+					return
+				}
+				if len(sts) > 1 {
+					ok = false
+					return
+				}
+			}
+			n++
+		case *ssa.MakeInterface:
+			walk(y.X, d+1)
+		case *ssa.Convert:
+			walk(y.X, d+1)
+		case *ssa.ChangeType:
+			walk(y.X, d+1)
+		default:
+			n++
+		}
+	}
+	walk(v, 0)
+	return n, ok
+}
+
+// c07R5: a rename is atomic, and leaves its temp file where the sweep of Close finds it, only inside
+// one directory. The temp file is created in the directory its final name lives in.
+func c07R5(p *core.Prog, r *core.Report, rule string) {
+	r.Rule(rule, "temp files live next to their final name: for every os.Rename in scheme/ocidir whose source is named after a file made by os.CreateTemp in the same function, the directory given to CreateTemp has exactly one path element less than the rename's destination (a rename across directories is not atomic on every file system, and a temp file left outside the blob directories is never swept)", 2)
+	for _, fn := range pkgFuncs(p, ocidirRel) {
+		renames := core.CallsTo(fn, func(f *types.Func) bool { return isOS(f, "Rename") })
+		temps := core.CallsTo(fn, func(f *types.Func) bool { return isOS(f, "CreateTemp") })
+		if len(renames) == 0 || len(temps) == 0 {
+			continue
+		}
+		lab := labeler{}
+		for _, rn := range renames {
+			// the temp file whose name is the last element of the source
+			var tmp ssa.CallInstruction
+			for _, t := range temps {
+				tv, _ := t.(ssa.Value)
+				for _, l := range pathLeaves(core.CallArg(rn, 0)) {
+					if fromCallValue(l, tv) {
+						tmp = t
+					}
+				}
+			}
+			if tmp == nil {
+				continue
+			}
+			label := lab.next("os.Rename")
+			dd, ok1 := pathDepth(core.CallArg(rn, 1))
+			td, ok2 := pathDepth(core.CallArg(tmp, 0))
+			if !ok1 || !ok2 {
+				r.Held(rule, p.FuncName(fn), label+" (not counted)", p.Pos(rn.Pos()), "the destination or the temp directory has alternatives; depth not compared")
+				continue
+			}
+			r.Check(dd == td+1, rule, p.FuncName(fn), label, p.Pos(rn.Pos()),
+				fmt.Sprintf("the temp file is created in a directory of %d path elements, the destination has %d: the rename crosses directories (not atomic everywhere), and a temp file left behind by a failed write sits where the sweep of Close does not look", td, dd))
+		}
+	}
+}
+
+// fromCallValue: v is derived (through method calls on it, extracts, conversions) from the result of call.
+func fromCallValue(v, call ssa.Value) bool {
+	for i := 0; i < 8 && v != nil; i++ {
+		if v == call {
+			return true
+		}
+		switch x := v.(type) {
+		case *ssa.Extract:
+			v = x.Tuple
+		case *ssa.Call:
+			if len(x.Call.Args) > 0 && !x.Call.IsInvoke() {
+				v = x.Call.Args[0]
+			} else if x.Call.IsInvoke() {
+				v = x.Call.Value
+			} else {
+				return false
+			}
+		case *ssa.MakeInterface:
+			v = x.X
+		case *ssa.UnOp:
+			al, ok := x.X.(*ssa.Alloc)
+			if !ok {
+				return false
+			}
+			sts := core.StoresToCell(al)
+			if len(sts) != 1 {
+				return false
+			}
+			v = sts[0].Val
+		default:
+			return false
+		}
+	}
+	return false
 }
 
 // fileWriters are the (*os.File) methods that modify a file.
